@@ -8,6 +8,8 @@
    __str__/__repr__ under tracing.  A BStr formats as a constant placeholder via __repr__ and
    refuses __str__, so message *content* over symbolic text is outside every claim while the
    control flow stays fully symbolic.
+3. int(): objects whose type defines __symx_int__ (harness value types that carry a symbolic integer)
+   convert through that hook instead of CPython's int(), which rejects a non-int from __int__.
 2. repr(): CrossHair may skip the call and return an unconstrained symbolic string reconciled
    later (a parallel fork per call).  We always call the object's __repr__.
 """
@@ -41,5 +43,31 @@ def install():
     def plain_repr(obj):
         return invoke_dunder(obj, '__repr__')
 
+    orig_int = core._PATCH_REGISTRATIONS[int]
+    _NOBASE = object()
+
+    busy = [False]
+
+    def int_with_hook(val=0, base=_NOBASE):
+        # harness value types may carry a symbolic integer (C18's NumStr = decimal text of n):
+        # CPython's int() insists on a real int from __int__, so hand the symbolic one back here.
+        with NoTracing():
+            hook = getattr(type(val), '__symx_int__', None)
+            nested = busy[0]
+            if nested:
+                # CrossHair's own patch ends with a plain int(val) on an already concrete value;
+                # that call is intercepted again and lands here: run the real builtin.
+                return int(val) if base is _NOBASE else int(val, base)
+        if hook is not None and base is _NOBASE:
+            return hook(val)
+        busy[0] = True
+        try:
+            if base is _NOBASE:
+                return orig_int(val)
+            return orig_int(val, base)
+        finally:
+            busy[0] = False
+
     core._PATCH_REGISTRATIONS[str.__mod__] = percent_format
     core._PATCH_REGISTRATIONS[repr] = plain_repr
+    core._PATCH_REGISTRATIONS[int] = int_with_hook
